@@ -30,8 +30,7 @@ with `seedtest.py` (demonstration passes without the patch; with the patch the w
 suite passes and the demonstration fails); the checks then ran against a second scratch
 worktree carrying the patch (`VERIF_REPO=<dir> ./check <id>`; the first rounds applied the
 patch to `/repo` and undid it straight afterwards) -- `/repo` never keeps one.  **%d
-are caught with a natively replayed `VIOLATION`, %d is not detected (the check exits 2:
-its harnesses no longer compile against the change); %d were not caught on the first run**
+are caught with a natively replayed `VIOLATION`%s; %d were not caught on the first run**
 (missed, found only symbolically, found only by a sibling check, or the encoder stopped
 with an error, which is exit 2 and not a detection) and each of those led to a
 strengthening that stays in the registered check (full story in each `meta.json`):
@@ -40,7 +39,7 @@ strengthening that stays in the registered check (full story in each `meta.json`
 |---------------|----------|-----------|-----------|
 %s
 
-''' % (n, n - undetected, undetected, missed, '\n'.join(rows))
+''' % (n, n - undetected, (', %d not detected' % undetected) if undetected else '', missed, '\n'.join(rows))
 s = s[:a] + body + s[b:]
 s = re.sub(r'/verif/seeded/<name>/ +\d+ seeded changes', '/verif/seeded/<name>/                %d seeded changes' % n, s)
 open('/verif/DESIGN.md', 'w').write(s)
